@@ -575,7 +575,7 @@ func (fx *fnExec) execMakeSlice(x *ssa.MakeSlice, where string) {
 
 func (fx *fnExec) mapHeaps(mt types.Type) (hasName string, hasSort string, ksort string, valPre string) {
 	m := mt.Underlying().(*types.Map)
-	ks, ok := fx.scalarSort(m.Key())
+	ks, ok := fx.keySort(m.Key())
 	if !ok {
 		panic(vcErr("map key type %s unsupported", m.Key()))
 	}
@@ -599,7 +599,7 @@ func (fx *fnExec) mapInit(r Term, mt types.Type) {
 
 func (fx *fnExec) mapGet(st *State, m Term, mt types.Type, k SV) (Term, SV) {
 	hn, hs, ks, vp := fx.mapHeaps(mt)
-	kt := fx.sc(k, ks)
+	kt := fx.keyTerm(k, mt.Underlying().(*types.Map).Key(), ks)
 	h := fx.heap(st, hn, hs)
 	has := tAnd(tNot(tEq(m, intLit64(0))), tSel(tSel(h, m), kt))
 	et := mt.Underlying().(*types.Map).Elem()
@@ -637,7 +637,7 @@ func (fx *fnExec) execMapUpdate(x *ssa.MapUpdate, where string) {
 	mt := x.Map.Type()
 	fx.oblige("safety:nil-map", "safety", tNot(tEq(m, intLit64(0))), where, "map != nil")
 	hn, hs, ks, vp := fx.mapHeaps(mt)
-	kt := fx.sc(fx.val(x.Key), ks)
+	kt := fx.keyTerm(fx.val(x.Key), mt.Underlying().(*types.Map).Key(), ks)
 	et := mt.Underlying().(*types.Map).Elem()
 	v := fx.fit(fx.val(x.Value), et)
 	h := fx.heap(fx.st, hn, hs)
@@ -671,7 +671,7 @@ func (fx *fnExec) execMapUpdate(x *ssa.MapUpdate, where string) {
 
 func (fx *fnExec) mapDelete(m Term, mt types.Type, k SV) {
 	hn, hs, ks, _ := fx.mapHeaps(mt)
-	kt := fx.sc(k, ks)
+	kt := fx.keyTerm(k, mt.Underlying().(*types.Map).Key(), ks)
 	h := fx.heap(fx.st, hn, hs)
 	had := tAnd(tNot(tEq(m, intLit64(0))), tSel(tSel(h, m), kt))
 	fx.st.heaps[hn] = tIte(tEq(m, intLit64(0)), h, tStore(h, m, tStore(tSel(h, m), kt, tFalse)))
@@ -875,7 +875,7 @@ func (fx *fnExec) execNext(x *ssa.Next, where string) {
 	total := fx.mapLen(fx.st, rs.m, mt)
 	ok := fx.iLt(cnt, total)
 	k := fx.freshSV(m.Key(), "rk")
-	kt := fx.sc(k, ks)
+	kt := fx.keyTerm(k, m.Key(), ks)
 	h := fx.heap(fx.st, hn, hs)
 	// picks any present, unseen key
 	fx.assume(tImp(ok, tAnd(tNot(tEq(rs.m, intLit64(0))), tSel(tSel(h, rs.m), kt), tNot(tSel(seen, kt)))))
@@ -1054,4 +1054,59 @@ func storesAfter(x *ssa.MakeClosure, a *ssa.Alloc) bool {
 		}
 	}
 	return false
+}
+
+// keySort: the SMT sort of a map key.  Scalars map to their own sort; a struct whose fields are all scalars (a pair of
+// strings, say) maps to an SMT datatype with one constructor, so that two keys are equal iff all their fields are.
+func (fx *fnExec) keySort(t types.Type) (string, bool) {
+	if so, ok := fx.scalarSort(t); ok {
+		return so, true
+	}
+	st, ok := t.Underlying().(*types.Struct)
+	if !ok || st.NumFields() == 0 {
+		return "", false
+	}
+	var fs []string
+	for i := 0; i < st.NumFields(); i++ {
+		so, ok := fx.scalarSort(st.Field(i).Type())
+		if !ok {
+			return "", false
+		}
+		if so == SStr {
+			fx.needStr()
+		}
+		fs = append(fs, so)
+	}
+	name := "K$" + san(typeKey(t))
+	if !fx.declared["datatype:"+name] {
+		fx.declared["datatype:"+name] = true
+		var sel []string
+		for i, so := range fs {
+			sel = append(sel, fmt.Sprintf("(%s$f%d %s)", name, i, so))
+		}
+		fx.decls = append(fx.decls, fmt.Sprintf("(declare-datatypes ((%s 0)) (((mk$%s %s))))", name, name, strings.Join(sel, " ")))
+	}
+	return name, true
+}
+
+// keyTerm: a key value as a term of its key sort.
+func (fx *fnExec) keyTerm(k SV, t types.Type, ks string) Term {
+	if !strings.HasPrefix(ks, "K$") {
+		return fx.sc(k, ks)
+	}
+	switch x := k.(type) {
+	case Sc:
+		if x.T.So == ks {
+			return x.T
+		}
+	case St:
+		st := t.Underlying().(*types.Struct)
+		var as []Term
+		for i := 0; i < st.NumFields(); i++ {
+			so, _ := fx.scalarSort(st.Field(i).Type())
+			as = append(as, fx.sc(x.F[i], so))
+		}
+		return app(ks, "mk$"+ks, as...)
+	}
+	panic(vcErr("cannot use %T as a key of sort %s", k, ks))
 }
